@@ -29,9 +29,13 @@ func (s *Struct) Build(gen Generator, ctx *MethodContext, sourceID *xtype.JenID,
 }
 
 func (s *Struct) Assign(gen Generator, ctx *MethodContext, assignTo *AssignTo, sourceID *xtype.JenID, source, target *xtype.Type, errPath ErrorPath) ([]jen.Code, *Error) {
-	additionalFieldSources, err := parseAutoMap(ctx, source)
-	if err != nil {
-		return nil, err
+	var additionalFieldSources []xtype.FieldSources
+	if ctx.FieldsTarget == target.String {
+		var err *Error
+		additionalFieldSources, err = parseAutoMap(ctx, source)
+		if err != nil {
+			return nil, err
+		}
 	}
 
 	stmt := []jen.Code{}
